@@ -197,7 +197,10 @@ type Server struct {
 	callFn          func()
 	pendingCall     bool
 	cancelFn        func() // what a fault with action "cancel" calls (SetCancel)
-	journalOff      bool
+	// AutoIncStep is auto_increment_increment (offset 1): generated keys are 1, 1+step, 1+2*step, ...;
+	// SHOW VARIABLES / @@auto_increment_increment answer it. 0 or 1 = 1.
+	AutoIncStep int64
+	journalOff  bool
 }
 
 func newServer(name, schema string) *Server {
@@ -261,6 +264,32 @@ func (s *Server) OnCall(fn func()) {
 	s.mu.Lock()
 	s.callFn = fn
 	s.mu.Unlock()
+}
+
+// SetAutoIncStep sets auto_increment_increment for the statements that follow (as SET GLOBAL would).
+func (s *Server) SetAutoIncStep(n int64) {
+	s.mu.Lock()
+	s.AutoIncStep = n
+	s.mu.Unlock()
+}
+
+func (s *Server) autoStep() int64 {
+	if s.AutoIncStep > 1 {
+		return s.AutoIncStep
+	}
+	return 1
+}
+
+// nextAuto is the smallest value >= from of the form 1 + k*step
+func (s *Server) nextAuto(from int64) int64 {
+	step := s.autoStep()
+	if from < 1 {
+		from = 1
+	}
+	if r := (from - 1) % step; r != 0 {
+		from += step - r
+	}
+	return from
 }
 
 // SetCancel registers the cancel function of the context of the call(s) about to be made
